@@ -40,6 +40,19 @@ fixed("F14", "C09", "token-file-left", {}, "960ab3e",
 fixed("F15", "C06", "future-nonfinal", {"result": "EXC:FileNotFoundError"}, "6ba803f",
       "_update() listed a token file that a watcher thread deleted before it was opened: acquire/release raised FileNotFoundError")
 
+fixed("F16", "C16", "protected-job-unindexed", {"when": "killed"}, "0c8dc71",
+      "jobs.bak was dropped on leaving the block before the scheduler thread had linked the submitted jobs: a finished job of the previous run, submitted again, was in no index (and reported by orphans) until linked, for good if the process died while waiting")
+fixed("F17", "C19", "filter-raises", {"exc": "TypeError"}, "ac99de5",
+      "filter operators 'in' (never true), 'not in' (always true: a negated-membership clean deleted everything) and '~' (TypeError) compared against parser objects")
+fixed("F18", "C19", "filter-raises", {"exc": "FileNotFoundError"}, "bc523bd",
+      "jobs list/clean with a tag filter or --tags failed on a job folder without params.json (lock-only folder of a job with pre/init tasks, or folder not yet prepared)")
+fixed("F19", "C19", "other-experiment-job-removed", {}, "9705f2f",
+      "jobs clean --experiment X --perform selected jobs by task name: finished jobs of other experiments with the same task were removed")
+fixed("F20", "C19", "running-job-removed", {"markers": ["failed", "pid"]}, "38a0a5e",
+      "a relaunched job kept its old .failed marker until its process had the job lock: jobs clean --perform deleted the directory of a running job")
+fixed("F21", "C19", "indexed-job-removed", {"experiment_running": True}, "936768f",
+      "orphans counted an index link only if the job folder existed: a job starting while the command ran was removed by orphans --clean")
+
 here = os.path.dirname(os.path.abspath(__file__))
 with open(os.path.join(here, "known_findings.json"), "w") as f:
     json.dump(F, f, indent=1)
